@@ -119,16 +119,27 @@ Definition check_lin (c0 : cell) (h : list hop) (cfin : cell) (w : list N) : boo
   | None => false
   end.
 
-(* ---------- the search (Wing & Gong with memoisation on (set of calls not yet linearised, cell)) ---------- *)
+(* ---------- the search (Wing & Gong with memoisation on (calls not yet linearised, cell)) ---------- *)
 
-Definition key := (list N * cell)%type.
-Fixpoint ids_eqb (a b : list N) : bool :=
-  match a, b with
-  | [], [] => true
-  | x :: a', y :: b' => N.eqb x y && ids_eqb a' b'
-  | _, _ => false
-  end.
-Definition key_eqb (a b : key) : bool := cell_eqb (snd a) (snd b) && ids_eqb (fst a) (fst b).
+Definition cres_eq_dec (a b : cres) : {a = b} + {a <> b}.
+Proof. decide equality; [apply Z.eq_dec | apply bool_dec]. Defined.
+Definition wsrc_eq_dec (a b : wsrc) : {a = b} + {a <> b}.
+Proof. unfold wsrc. decide equality. apply Z.eq_dec. Defined.
+Definition cop_eq_dec (a b : cop) : {a = b} + {a <> b}.
+Proof. decide equality; apply wsrc_eq_dec. Defined.
+Definition outcome_eq_dec (a b : outcome) : {a = b} + {a <> b}.
+Proof. decide equality. decide equality. apply cres_eq_dec. Defined.
+Definition hop_eq_dec (a b : hop) : {a = b} + {a <> b}.
+Proof.
+  decide equality; try apply N.eq_dec; try apply bool_dec; try apply cop_eq_dec; try apply outcome_eq_dec.
+  decide equality. apply N.eq_dec.
+Defined.
+Definition cell_eq_dec (a b : cell) : {a = b} + {a <> b}.
+Proof. decide equality; [apply Z.eq_dec | apply bool_dec]. Defined.
+
+Definition key := (list hop * cell)%type.
+Definition key_eqb (a b : key) : bool :=
+  if cell_eq_dec (snd a) (snd b) then if list_eq_dec hop_eq_dec (fst a) (fst b) then true else false else false.
 Definition mem_key (k : key) (seen : list key) : bool := existsb (key_eqb k) seen.
 
 Inductive sres := Found (w : list N) | NotFound | NoFuel.
@@ -144,55 +155,167 @@ Fixpoint minret (l : list hop) : option N :=
       | None, m => m
       end
   end.
-(* x may come next: nobody else returned before x was invoked *)
+(* x may come next: nobody returned before x was invoked *)
 Definition cand (mr : option N) (x : hop) : bool := match mr with Some m => h_inv x <=? m | None => true end.
 
 Section Search.
   Variable cfin : cell.
   Variable pend : list hop.
 
-  Fixpoint search (fuel : nat) (c : cell) (rem : list hop) (seen : list key) {struct fuel} : sres * list key :=
-    match fuel with
-    | O => (NoFuel, seen)
-    | S f =>
-        match rem with
-        | [] => if cell_eqb c cfin && quiescent_b pend c then (Found [], seen) else (NotFound, seen)
-        | _ :: _ =>
-            let k := (map h_id rem, c) in
-            if mem_key k seen then (NotFound, seen) else
-            let mr := minret rem in
-            (fix try (pre post : list hop) (seen : list key) {struct post} : sres * list key :=
-               match post with
-               | [] => (NotFound, k :: seen)
-               | x :: post' =>
-                   if cand mr x then
-                     match apply_op c x with
-                     | Some c1 =>
-                         match search f c1 (rev_append pre post') seen with
-                         | (Found w, s) => (Found (h_id x :: w), s)
-                         | (NoFuel, s) => (NoFuel, s)
-                         | (NotFound, s) => try (x :: pre) post' s
-                         end
-                     | None => try (x :: pre) post' seen
-                     end
-                   else try (x :: pre) post' seen
-               end) [] rem seen
+  Definition final_ok (c : cell) : bool := cell_eqb c cfin && quiescent_b pend c.
+
+  (* ----- the complete search: every candidate is tried; b = number of nodes it may still visit ----- *)
+  Section Try.
+    Variable rec : cell -> list hop -> list key -> N -> sres * list key * N.
+    Variable c : cell.
+    Variable mr : option N.
+    Variable k : key.
+    (* try every candidate of post as the next call; pre = the calls already tried, latest first *)
+    Fixpoint try_cands (pre post : list hop) (seen : list key) (b : N) {struct post} : sres * list key * N :=
+      match post with
+      | [] => (NotFound, k :: seen, b)
+      | x :: post' =>
+          if cand mr x then
+            match apply_op c x with
+            | Some c1 =>
+                match rec c1 (rev_append pre post') seen b with
+                | (Found w, s, b') => (Found (h_id x :: w), s, b')
+                | (NoFuel, s, b') => (NoFuel, s, b')
+                | (NotFound, s, b') => try_cands (x :: pre) post' s b'
+                end
+            | None => try_cands (x :: pre) post' seen b
+            end
+          else try_cands (x :: pre) post' seen b
+      end.
+  End Try.
+
+  Fixpoint search (depth : nat) (c : cell) (rem : list hop) (seen : list key) (b : N) {struct depth} : sres * list key * N :=
+    match depth with
+    | O => (NoFuel, seen, b)
+    | S d =>
+        match b with
+        | N0 => (NoFuel, seen, b)
+        | _ =>
+            let b := N.pred b in
+            match rem with
+            | [] => if final_ok c then (Found [], seen, b) else (NotFound, seen, b)
+            | _ :: _ =>
+                if mem_key (rem, c) seen then (NotFound, seen, b)
+                else try_cands (search d) c (minret rem) (rem, c) [] rem seen b
+            end
+        end
+    end.
+
+  (* ----- the fast search: finds witnesses only (they are re-checked by check_lin); heuristics, no claim of completeness ----- *)
+  (* calls that never change the cell wherever they stand: taken as soon as they are enabled *)
+  Definition is_pure (x : hop) : bool :=
+    match h_out x with
+    | OFail => true
+    | ODone _ => match h_op x with CReadFF | CReadXX | CStatus => true | _ => false end
+    end.
+  Definition need_val (x : hop) : option Z :=
+    match h_out x with
+    | ODone (Some (RVal v)) => match h_op x with CReadFE | CReadFF | CReadXX => Some v | _ => None end
+    | _ => None
+    end.
+  Definition gives_val (x : hop) : option Z :=
+    match h_out x with
+    | ODone _ => match h_op x with
+                 | CWriteEF (Some v) | CWriteF (Some v) | CWriteFF (Some v) | CPurge (Some v) => Some v
+                 | _ => None
+                 end
+    | OFail => None
+    end.
+  Definition wants_full (x : hop) : bool :=
+    match h_out x with ODone _ => waits_for_full (h_op x) | OFail => waits_for_empty (h_op x) end.
+  Definition wants_empty (x : hop) : bool :=
+    match h_out x with ODone _ => waits_for_empty (h_op x) | OFail => waits_for_full (h_op x) end.
+  Definition can_fill (x : hop) : bool :=
+    match h_out x with ODone _ => match h_op x with CWriteEF _ | CWriteF _ | CFill => true | _ => false end | OFail => false end.
+  Definition can_empty (x : hop) : bool :=
+    match h_out x with ODone _ => match h_op x with CReadFE | CEmpty | CPurge _ => true | _ => false end | OFail => false end.
+  Fixpoint vals_of (l : list hop) : list Z :=
+    match l with [] => [] | x :: l' => match gives_val x with Some v => v :: vals_of l' | None => vals_of l' end end.
+  (* a remaining call can no longer get what it observed / the state it needs *)
+  Definition stranded (c1 : cell) (rem' : list hop) : bool :=
+    let avail := c_val c1 :: vals_of rem' in
+    existsb (fun y => match need_val y with Some v => negb (existsb (Z.eqb v) avail) | None => false end) rem'
+    || (if c_full c1 then existsb wants_empty rem' && negb (existsb can_empty rem')
+        else existsb wants_full rem' && negb (existsb can_fill rem')).
+
+  Definition fcand := (hop * cell * list hop)%type.
+  Fixpoint cands_of (c : cell) (mr : option N) (pre post : list hop) : list fcand :=
+    match post with
+    | [] => []
+    | x :: post' =>
+        let rest := cands_of c mr (x :: pre) post' in
+        if cand mr x then
+          match apply_op c x with Some c1 => (x, c1, rev_append pre post') :: rest | None => rest end
+        else rest
+    end.
+  Definition ret_of (x : hop) : N := match h_ret x with Some r => r | None => 0 end.
+  Fixpoint insert_by_ret (a : fcand) (l : list fcand) : list fcand :=
+    match l with
+    | [] => [a]
+    | y :: l' => if ret_of (fst (fst a)) <=? ret_of (fst (fst y)) then a :: l else y :: insert_by_ret a l'
+    end.
+  Definition sort_by_ret (l : list fcand) : list fcand := fold_right insert_by_ret [] l.
+
+  Fixpoint fsearch (depth : nat) (c : cell) (rem : list hop) (b : N) {struct depth} : option (list N) * N :=
+    match depth with
+    | O => (None, b)
+    | S d =>
+        match b with
+        | N0 => (None, b)
+        | _ =>
+            let b := N.pred b in
+            match rem with
+            | [] => if final_ok c then (Some [], b) else (None, b)
+            | _ :: _ =>
+                let cs := cands_of c (minret rem) [] rem in
+                match find (fun a => is_pure (fst (fst a))) cs with
+                | Some (x, c1, rem') =>
+                    match fsearch d c1 rem' b with
+                    | (Some w, b') => (Some (h_id x :: w), b')
+                    | (None, b') => (None, b')
+                    end
+                | None =>
+                    (fix ftry (l : list fcand) (b : N) {struct l} : option (list N) * N :=
+                       match l with
+                       | [] => (None, b)
+                       | (x, c1, rem') :: l' =>
+                           match fsearch d c1 rem' b with
+                           | (Some w, b') => (Some (h_id x :: w), b')
+                           | (None, b') => ftry l' b'
+                           end
+                       end) (sort_by_ret (filter (fun a => negb (stranded (snd (fst a)) (snd a))) cs)) b
+                end
+            end
         end
     end.
 End Search.
 
 Inductive verdict := Accept (w : list N) | Reject | Unknown | Bug.
 
-(* ids must be distinct for the memo keys to identify sets of calls *)
-Fixpoint nodup_ids (l : list N) : bool :=
-  match l with [] => true | x :: l' => negb (existsb (N.eqb x) l') && nodup_ids l' end.
+(* well-formed: a call returns after it was invoked *)
+Definition wf_b (h : list hop) : bool :=
+  forallb (fun x => match h_ret x with Some r => h_inv x <? r | None => true end) h.
 
 Definition decide (fuel : N) (c0 : cell) (h : list hop) (cfin : cell) : verdict :=
-  if negb (nodup_ids (map h_id h)) then Bug else
-  match fst (search cfin (pending h) (N.to_nat fuel) c0 (completed h) []) with
-  | Found w => if check_lin c0 h cfin w then Accept w else Bug
-  | NotFound => Reject
-  | NoFuel => Unknown
+  if negb (wf_b h) then Bug else
+  let depth := S (length h) in
+  let fast := match fst (fsearch cfin (pending h) depth c0 (completed h) fuel) with
+              | Some w => if check_lin c0 h cfin w then Some w else None
+              | None => None
+              end in
+  match fast with
+  | Some w => Accept w
+  | None =>
+      match fst (fst (search cfin (pending h) depth c0 (completed h) [] fuel)) with
+      | Found w => if check_lin c0 h cfin w then Accept w else Bug
+      | NotFound => Reject
+      | NoFuel => Unknown
+      end
   end.
 
 Definition accepts (fuel : N) (c0 : cell) (h : list hop) (cfin : cell) : bool :=
